@@ -23,10 +23,13 @@ HOSTS = ['h0', 'h1', 'h2', 'h3', 'h4', 'h5']
 # with '[' or ends with ']', so none of these does.
 LITERALS = ['p0', 'p1', 'p2', 'hpc', 'box', 'linux', 'my-host', 'hpc1']
 REGEXES = ['p[0-9]+', 'p.', r'hpc\d?', r'hpc\d{2}', '.*x', 'p0|p1', 'b(o|a)x', r'p\d+', 'hpc.*', 'g.*', 'li?n.x']
-QUANT = ['n{1,2}x', r'hpc\d{1,2}', 'p{1, 2}q']            # a comma inside a quantifier
+QUANT = ['n{1,2}x', r'hpc\d{1,2}', 'p{1, 2}q', r'nd\d{2,}', r'nd\d{,2}', 'n{2,}x', r'gp\d{1,}']     # a comma inside a quantifier
+# every quantifier form, for the systematic grid of gen()
+QUANT_FORMS = ['{2}', '{1,2}', '{2,}', '{,2}', '{1,}', '{0,1}']
 LOCALISH = ['local(_big)?', 'loc|hpc', r'l[a-z]{2}\d?', 'l.*', 'localhost|box', 'local.*', 'l[a-z]{4}']   # touch "localhost"
 NAMES = ['p0', 'p1', 'p2', 'p12', 'hpc', 'hpc1', 'hpc12', 'box', 'bax', 'nx', 'nnx', 'nnnx', 'pq', 'ppq',
-         'local', 'local_big', 'loc', 'lab1', 'linux', 'localhost', 'simulation', 'skip', 'my-host', 'zzz', 'px']
+         'local', 'local_big', 'loc', 'lab1', 'linux', 'localhost', 'simulation', 'skip', 'my-host', 'zzz', 'px',
+         'nd1', 'nd12', 'nd123', 'gp1', 'gp123']
 GROUP_KEYS = ['g0', 'g1', 'g.', 'pool', 'ga|gb', 'gr[12]x']
 GROUP_NAMES = ['g0', 'g1', 'ga', 'gb', 'pool', 'gr1x', 'gx']
 METHODS = ['random', 'definition order']
@@ -133,7 +136,8 @@ class C47(Prop):
             'definitions; calls: platform_from_name, get_platform_from_group, get_host_from_platform (inline '
             'platform, incl. unsupported methods and duplicate hosts), loaded key list; both load modes; the '
             'exhaustive box of get_host_from_platform over <=3 hosts x all bad subsets x methods x choices is '
-            'included; class = call kind / mode / outcome / branch tags')
+            'included; a systematic grid of every regex quantifier form ({n} {m,n} {n,} {,n}) at every position of a '
+            'comma list x spacing x load mode x names of 0-3 digits; class = call kind / mode / outcome / branch tags')
     workers = 16
 
     # ------------------------------------------------------------------
@@ -288,6 +292,20 @@ class C47(Prop):
                         for c in ([0, 1, 2, 5] if m == 'random' else [0]):
                             yield {'mode': 'raw', 'sections': [], 'groups': [],
                                    'call': {'f': 'host', 'hosts': hs, 'method': m, 'bad': bv, 'cs': [c]}}
+        # systematic grid: every regex quantifier form x its position in a comma list x spacing x load mode x
+        # names with 0..3 digits; an earlier, broader definition catches what the quantified pattern lets through
+        for q in QUANT_FORMS:
+            pat = 'nd\\d' + q
+            for alts in ([pat], [pat, 'box'], ['box', pat], ['box', pat, 'linux'], [pat, 'gp\\d' + q]):
+                for sp in range(4):
+                    if len(alts) == 1 and sp:
+                        continue
+                    secs = [{'alts': ['n.*', 'g.*'], 'hosts': ['h0'], 'method': None, 'sp': sp},
+                            {'alts': alts, 'hosts': ['h1', 'h2'], 'method': 'definition order', 'sp': sp}]
+                    for mode in ('raw', 'global'):
+                        for nm in ('nd', 'nd1', 'nd12', 'nd123') + (('gp12',) if len(alts) > 1 and alts[1].startswith('gp') else ()):
+                            yield {'mode': mode, 'sections': secs, 'groups': [],
+                                   'call': {'f': 'name', 'name': nm, 'bad': None, 'cs': []}}
         n = {'quick': 8000, 'thorough': 120000, 'search': 160000}[tier]
         for _ in range(n):
             yield self.random_case(rng)
@@ -485,7 +503,7 @@ class C47(Prop):
         if f == 'keys':
             kinds = set()
             for s in inp['sections']:
-                if any(a in QUANT for a in s['alts']):
+                if any(re.search(r'\{[^}]*,[^}]*\}', a) for a in s['alts']):
                     kinds.add('quantifier-comma')
                 elif len(s['alts']) > 1:
                     kinds.add('comma-list')
@@ -510,6 +528,8 @@ class C47(Prop):
             tags.append('multi' if nmatch > 1 else 'single' if nmatch == 1 else 'nomatch')
             if any(a in LOCALISH for s in inp['sections'] for a in s['alts']):
                 tags.append('localish')
+            if any('{' in a for s in inp['sections'] for a in s['alts']):
+                tags.append('quantifier')
         elif 'ok' in o and isinstance(o['ok'], dict) and bad:
             tags.append('alive-selected')
         return '/'.join(tags)
